@@ -21,6 +21,9 @@ type c08Cfg struct {
 	Fwd  bool   `json:"fwd"`
 	Cap  int    `json:"cap"`
 	Mtx  bool   `json:"mutex,omitempty"`
+	// Rebuilt: the same content reached the long way round - one value more was pushed in front and taken out
+	// again with Remove(0) (the library rebuilds the backing array on that path)
+	Rebuilt bool `json:"reached_through_remove,omitempty"`
 }
 
 func (cf c08Cfg) build() (stackage.Stack, *listModel) {
@@ -38,7 +41,14 @@ func (cf c08Cfg) build() (stackage.Stack, *listModel) {
 		s.SetForwardIndices(true)
 	}
 	vals := patternValues(cf.Len, cf.Mask, "e")
-	s.Push(vals...)
+	if cf.Rebuilt && cf.Len > 0 {
+		s.Push("passing-through")
+		s.Push(vals[:cf.Len-1]...) // one slot short of the content, so that a capacity of Len is enough
+		s.Remove(0)
+		s.Push(vals[cf.Len-1])
+	} else {
+		s.Push(vals...)
+	}
 	m.push(vals...)
 	if cf.Mtx {
 		s.SetMutex()
@@ -619,11 +629,18 @@ func c08IntCases(c *Ctx) []c08IntCase {
 							if mtx && (cp != 0 || (c.Quick() && mask != (1<<n)-1)) {
 								continue
 							}
-							cf := c08Cfg{k, n, mask, o&1 != 0, o&2 != 0, cp, mtx}
+							cf := c08Cfg{k, n, mask, o&1 != 0, o&2 != 0, cp, mtx, false}
 							idx := c08IndexValues(n)
 							for _, i := range idx {
 								for _, op := range []string{"Index", "Remove", "Replace", "Traverse", "Insert", "Defrag"} {
 									out = append(out, c08IntCase{cf, op, []int{i}})
+								}
+								if n > 0 && mask == (1<<n)-1 && !mtx {
+									rb := cf
+									rb.Rebuilt = true
+									for _, op := range []string{"Index", "Remove", "Replace", "Insert"} {
+										out = append(out, c08IntCase{rb, op, []int{i}})
+									}
 								}
 								out = append(out, c08IntCase{cf, "Traverse", []int{i, 0}})
 								for _, j := range idx {
@@ -651,7 +668,7 @@ func c08IntCases(c *Ctx) []c08IntCase {
 		for _, mask := range []int{full, full &^ 2} {
 			for o := 0; o < 4; o++ {
 				for _, cp := range []int{0, n + 1} {
-					cf := c08Cfg{kindNames[(li+o)%5], n, mask, o&1 != 0, o&2 != 0, cp, cp != 0 && o == 3}
+					cf := c08Cfg{kindNames[(li+o)%5], n, mask, o&1 != 0, o&2 != 0, cp, cp != 0 && o == 3, false}
 					idx := []int{math.MinInt, math.MaxInt, -n - 1, -n, -n + 1, -2, -1, 0, 1, n / 2, n - 2, n - 1, n, n + 1}
 					for _, i := range idx {
 						for _, op := range []string{"Index", "Remove", "Replace", "Traverse", "Insert", "Defrag"} {
